@@ -18,11 +18,11 @@ PROPERTY = "C06"
 
 META = {
     "bounds": {
-        "quick": "all expression trees with <= 2 operators (154 shapes) x 4 renderings x 11 contexts (incl. inner scopes assigning temporaries of the variable's name, the same text evaluated twice in one scope, and the same expression in a code block spliced twice, with a variable re-assigned in between), leaves a..d in [0,2^12), shift amounts s in [0,8); literals: decimal 1-5 digits, 0x + 1-4 hex digits (both cases), 0b + 1-6 bits, all symbolic",
+        "quick": "all expression trees with <= 2 operators (154 shapes) x 4 renderings x 11 contexts (incl. inner scopes assigning temporaries of the variable's name, the same text evaluated twice in one scope, and the same expression in a code block spliced twice, with a variable re-assigned in between), leaves a..d in [0,2^24) (trees without `*`), [0,2^16) (<= 2 operators), [0,2^12) (larger trees with `*`), shift amounts s in [0,8); literals: decimal 1-5 digits, 0x + 1-4 hex digits (both cases), 0b + 1-6 bits, all symbolic",
         "thorough": "trees with <= 3 operators (all) plus a VERIF_SEED-drawn sample of 4- and 5-operator trees; same leaves; literals up to 6/5/8 digits",
     },
     "outside": [
-        "operators / % ^ == != < > (not in the statement)", "operand of ~ with magnitude >= 2^32", "leaf values >= 2^12 (keeps products inside the engine's 63 bits)",
+        "operators / % ^ == != < > (not in the statement)", "operand of ~ with magnitude >= 2^32", "leaf values >= 2^24; >= 2^16 in trees with `*`, >= 2^12 in trees with `*` and more than 2 operators (keeps products inside the engine's 63 bits)",
         "0X / 0B upper-case prefixes and decimal literals with leading zeros (accepted or rejected, never mis-evaluated)",
         ".for bounds with symbolic values (context covered with literal operands only)",
     ],
@@ -108,7 +108,7 @@ def _tree(t):
     return tuple(_tree(x) if isinstance(x, (list, tuple)) else x for x in t)
 
 
-def _syms(cx, names, enumerate_shift=False):
+def _syms(cx, names, enumerate_shift=False, wide=False):
     syms = {}
     for nm in names:
         if nm == "s" and enumerate_shift:
@@ -116,7 +116,7 @@ def _syms(cx, names, enumerate_shift=False):
             # the 8 shift amounts are enumerated instead (complete within the bound)
             syms[nm] = _pick(cx.choice("s", list(range(8))))
         else:
-            syms[nm] = cx.int(nm, 0, 7) if nm == "s" else cx.int(nm, 0, 0xFFF)
+            syms[nm] = cx.int(nm, 0, 7) if nm == "s" else cx.int(nm, 0, wide if isinstance(wide, int) and wide > 1 else 0xFFFF if wide else 0xFFF)
     return syms
 
 
@@ -140,7 +140,8 @@ def run(spec, cx):
         t = _tree(spec["trees"][ti])
         text = X.render(t, style)
         names = sorted(set(X.leaves(t)))
-        syms = _syms(cx, names, enumerate_shift=X.uses(t, {"*"}) and X.uses(t, {"<<", ">>"}) and X.count_ops(t) > 2)
+        # 16-bit leaves where at most two products can meet (results stay far inside 63 bits), 12-bit leaves otherwise
+        syms = _syms(cx, names, enumerate_shift=X.uses(t, {"*"}) and X.uses(t, {"<<", ">>"}) and X.count_ops(t) > 2, wide=0xFFFFFF if not X.uses(t, {"*"}) else X.count_ops(t) <= 2)
         if ctx != "str" and X.uses(t, {"|", "~"}):
             return ("skipped-context", ti, style, ctx)  # the directive lexer has no | and ~
         if ctx == "str":
